@@ -64,6 +64,7 @@ type handler struct {
 	s3                   storage.S3Client
 	cache                *cache.SegmentCache
 	logs                 map[string]map[int32]*storage.PartitionLog
+	logLeaseGen          map[string]uint64 // "topic/partition" -> lease generation the cached log was opened under
 	logMu                sync.RWMutex
 	logInit              singleflight.Group
 	logConfig            storage.PartitionLogConfig
@@ -1068,7 +1069,7 @@ func (h *handler) handleProduce(ctx context.Context, header *protocol.RequestHea
 				}
 				continue
 			}
-			plog, err := h.getPartitionLog(ctx, topic.Topic, part.Partition)
+			plog, err := h.getOwnedPartitionLog(ctx, topic.Topic, part.Partition)
 			if err != nil {
 				h.logger.Error("partition log init failed", "error", err, "topic", topic.Topic, "partition", part.Partition)
 				p := kmsg.NewProduceResponseTopicPartition()
@@ -1983,6 +1984,31 @@ func (h *handler) ensureTopic(ctx context.Context, topic string, partition int32
 	}
 	h.logger.Info("auto-created topic", "topic", topic, "partitions", desired)
 	return nil
+}
+
+// getOwnedPartitionLog returns the partition log for the produce path. A log
+// cached before this broker (re)gained the partition's lease was restored
+// from S3 at an earlier time: another owner may have appended since, and
+// writing through it would reuse offsets and overwrite that owner's segments.
+// The first produce of every lease generation therefore drops the cached log
+// so that getPartitionLog re-opens it from S3 and the metadata store.
+func (h *handler) getOwnedPartitionLog(ctx context.Context, topic string, partition int32) (*storage.PartitionLog, error) {
+	if h.leaseManager != nil {
+		gen := h.leaseManager.Generation(topic, partition)
+		key := fmt.Sprintf("%s/%d", topic, partition)
+		h.logMu.Lock()
+		if h.logLeaseGen == nil {
+			h.logLeaseGen = make(map[string]uint64)
+		}
+		if h.logLeaseGen[key] != gen {
+			h.logLeaseGen[key] = gen
+			if partitions, ok := h.logs[topic]; ok {
+				delete(partitions, partition)
+			}
+		}
+		h.logMu.Unlock()
+	}
+	return h.getPartitionLog(ctx, topic, partition)
 }
 
 func (h *handler) getPartitionLog(ctx context.Context, topic string, partition int32) (*storage.PartitionLog, error) {
